@@ -810,9 +810,15 @@ impl<T: Float> Unpaired<T> {
         let std_err_mean = // $\sqrt{s_a^2 / n_a + s_b^2 / n_b}$
             sum_s2_n.sqrt();
         let effective_dof = // $ \frac{ (s_a^a / n_a + s_b^2 / n_b)^2 }{ \frac{1}{n_a+1} \left(\frac{s_a^2}{n_a}\right)^2 + \frac{1}{n_b+1} \left(\frac{s_b^2}{n_b}\right)^2 } - 2$
-            sum_s2_n * sum_s2_n
-                / (sa2_na * sa2_na / (n_a + T::one())
-                    + sb2_nb * sb2_nb / (n_b + T::one())) - T::one() - T::one();
+            // NB: computed from the shares of the two samples in the variance, as the fourth
+            // powers of the data easily overflow (or underflow) the range of the float type
+            {
+                let share_a = sa2_na / sum_s2_n;
+                let share_b = sb2_nb / sum_s2_n;
+                T::one()
+                    / (share_a * share_a / (n_a + T::one())
+                        + share_b * share_b / (n_b + T::one())) - T::one() - T::one()
+            };
 
         let (lo, hi) = stats::interval_bounds(
             confidence,
